@@ -555,6 +555,19 @@ func main() {
 	var strs []string
 	vlib.Seqs(alpha, maxLen, func(s string, _ []int) bool { strs = append(strs, s); return true })
 	parallel(len(strs), func(i int) { checkAll(strs[i], false) })
+	// runs: symbols that are escaped, repeated n times for n around 64, 256, 1 KiB, 4 KiB and 64 KiB (an escaper that
+	// counts growth, or a buffer that switches strategy), alone and followed by a closing attempt
+	{
+		var runsS []string
+		for _, a := range []string{"\"", "'", "<", "`", "\\", "$", "\n", "é", "\u2028", "x"} {
+			for _, n := range []int{31, 32, 33, 63, 64, 65, 85, 86, 127, 128, 129, 255, 256, 257, 1023, 1024, 1025, 4095, 4096, 4097, 65535, 65536, 65537} {
+				r := strings.Repeat(a, n)
+				runsS = append(runsS, r, r+"</script><script>alert(1)</script>", r+"';alert(1)//")
+			}
+		}
+		parallel(len(runsS), func(i int) { checkAll(runsS[i], false) })
+		run.Cov["repeated_symbol_runs"] = len(runsS)
+	}
 	// nested values over every string ≤ 2 (quick: ≤ 1)
 	var small []string
 	vlib.Seqs(alpha, run.Pick(1, 2), func(s string, _ []int) bool { small = append(small, s); return true })
